@@ -322,7 +322,7 @@ Section Sessions.
   Proof.
     intros Hwf Hwfs. unfold session, init.
     destruct (handle_flags fixed re_ok g_default c) as [g1| |] eqn:H0; cbn [rbind]; try discriminate.
-    destruct (lr && negb (g_var_map g1)); cbn [rbind]; try discriminate.
+    destruct (lr && negb (g_var_map g1) && negb fixed); cbn [rbind]; try discriminate.
     assert (Hfc : from_client g1 c) by (exists g_default; split; [apply cinv_default|exact H0]).
     destruct cs as [|c1 cs]; cbn [changes effective_client].
     - intros H. apply Ok_inj in H. subst. cbn [s_g]. auto.
@@ -532,31 +532,32 @@ Section Faults.
     negb lr || match j with Some _ => true | None => hd false (c_flags c) end.
 
   Theorem session_no_fault fixed j c lr cs :
-    session_patterns_ok fixed j c cs = true -> local_ok j c lr = true ->
+    session_patterns_ok fixed j c cs = true -> fixed || local_ok j c lr = true ->
     exists s, session fixed re_ok j c lr cs = Ok s.
   Proof.
     unfold session_patterns_ok, local_ok. intros H Hl. apply andb_true_iff in H as [H0 Hcs].
     unfold session, init. destruct j as [jc|].
-    - unfold read_json. rewrite H0. cbn [rbind g_var_map negb]. rewrite andb_false_r. cbn [rbind].
+    - unfold read_json. rewrite H0. cbn [rbind g_var_map negb]. rewrite andb_false_r. cbn [andb rbind].
       apply changes_ok_ex. exact Hcs.
     - destruct (handle_flags_ok_ex fixed g_default c H0) as (g' & Hg & Hvm). rewrite Hg. cbn [rbind].
-      assert (Hz : lr && negb (g_var_map g') = false).
-      { destruct lr; [|reflexivity]. cbn [negb orb] in Hl. rewrite (Hvm Hl). reflexivity. }
+      assert (Hz : lr && negb (g_var_map g') && negb fixed = false).
+      { destruct fixed; [rewrite andb_false_r; reflexivity|]. cbn [orb] in Hl.
+        destruct lr; [|reflexivity]. cbn [negb orb] in Hl. rewrite (Hvm Hl). reflexivity. }
       rewrite Hz. cbn [rbind]. apply changes_ok_ex. exact Hcs.
   Qed.
 
-  (* the repaired variant (of the regexp defect) never faults where LocalRun is harmless *)
+  (* the repaired code (both fix: commits) never faults, whatever the settings *)
   Theorem fixed_never_faults j c lr cs :
-    local_ok j c lr = true -> exists s, session true re_ok j c lr cs = Ok s.
+    exists s, session true re_ok j c lr cs = Ok s.
   Proof.
-    intros Hl. apply session_no_fault; [|exact Hl]. unfold session_patterns_ok, compile_all. cbn [orb].
+    apply session_no_fault; [|reflexivity]. unfold session_patterns_ok, compile_all. cbn [orb].
     destruct j; cbn [andb]; induction cs; cbn [forallb andb]; auto.
   Qed.
 
-  (* LocalRun with the master switch off: initialize writes into the nil map IgnoreVarMap *)
-  Theorem local_master_off_faults fixed c fl :
-    c_flags c = false :: fl -> compile_all fixed re_ok (c_ignore_err c) = true ->
-    init fixed re_ok None c true = Fault NilDeref.
+  (* before the repair: LocalRun with the master switch off: initialize writes into the nil map IgnoreVarMap *)
+  Theorem local_master_off_faults c fl :
+    c_flags c = false :: fl -> compile_all false re_ok (c_ignore_err c) = true ->
+    init false re_ok None c true = Fault NilDeref.
   Proof.
     intros Hf Hc. unfold init, handle_flags. rewrite Hc, Hf. cbn [rbind g_var_map g_default andb negb]. reflexivity.
   Qed.
